@@ -862,7 +862,7 @@ pub fn run(tier: Tier) -> CheckResult {
     res.coverage.set("distinct_outcomes", outcomes.len() as u64);
     res.coverage.set("exhaustive", exhaustive);
     res.coverage.set("samples", json!([docs[docs.len() / 3], docs[docs.len() - 2], pcases[pcases.len() / 2]]));
-    res.coverage.set("rule", "precedence cases also with one further key of the entry carrying a value of the wrong JSON type (verbose as a string, force as a number, typeMappings with a number, excludePatterns as a string) beside well-typed keys, which must still beat the defaults unless the run is refused with nothing written; Part A (in process): JSON documents with 0..3 (quick) / 0..4 (thorough) extra top-level members whose values range over the i64/u64 extremes, decimals, exponents, -0.0, escaped and non-ASCII strings, nested arrays/objects (also as one-level objects), crossed with seven shapes of the plugins section (absent, empty, other plugins, existing typegen entry, typegen entry with unknown keys, null entries, typegen entry carrying every optional setting) at varying key positions, each also laid out with eight-space indentation and with 3000 trailing blanks (so that what is written back is shorter than what was there), crossed with three settings objects, each followed by writing the other two over it; save_to_tauri_config then: document minus plugins.typegen is value-equal to the original, and from_tauri_config returns the persisted settings. Part B (real binary): for each configuration source (none, the discovered tauri.conf.json locations, --config file) every single-field file (absent / valid values / invalid value) x all 32 flag subsets, plus multi-field files x 11 flag subsets, plus value flags spelled with the built-in default values against files that say otherwise; effective setting = first-defined(flag, file, default), observed through which directory receives output, which project's command is wrapped, the Generator header line, verbose output, regeneration over a matching cache; invalid effective library / missing project path => non-zero exit and an unchanged sandbox tree. Part C (real binary, `init`): -p {default, other, missing, a path through a regular file, a path with a 300-character component} x -g given or not x -v {absent, zod, none, unsupported, Zod, NONE (the names are case-sensitive)} x -o {default tauri.conf.json in the project, new standalone file, existing standalone file without / with --force, explicit tauri.conf.json elsewhere}; an unsupported library, a missing project path or an existing standalone file without --force => non-zero exit and an unchanged sandbox tree; otherwise exit 0, only the configuration file and the output directory change, the file reads back as the settings given, every other key of a tauri.conf.json survives, and the initial generation used the same settings.");
+    res.coverage.set("rule", "[round 7: init -o into a directory that does not exist yet (a refusal with nothing written and a success are both accepted; directories left behind by a refused run are not)] precedence cases also with one further key of the entry carrying a value of the wrong JSON type (verbose as a string, force as a number, typeMappings with a number, excludePatterns as a string) beside well-typed keys, which must still beat the defaults unless the run is refused with nothing written; Part A (in process): JSON documents with 0..3 (quick) / 0..4 (thorough) extra top-level members whose values range over the i64/u64 extremes, decimals, exponents, -0.0, escaped and non-ASCII strings, nested arrays/objects (also as one-level objects), crossed with seven shapes of the plugins section (absent, empty, other plugins, existing typegen entry, typegen entry with unknown keys, null entries, typegen entry carrying every optional setting) at varying key positions, each also laid out with eight-space indentation and with 3000 trailing blanks (so that what is written back is shorter than what was there), crossed with three settings objects, each followed by writing the other two over it; save_to_tauri_config then: document minus plugins.typegen is value-equal to the original, and from_tauri_config returns the persisted settings. Part B (real binary): for each configuration source (none, the discovered tauri.conf.json locations, --config file) every single-field file (absent / valid values / invalid value) x all 32 flag subsets, plus multi-field files x 11 flag subsets, plus value flags spelled with the built-in default values against files that say otherwise; effective setting = first-defined(flag, file, default), observed through which directory receives output, which project's command is wrapped, the Generator header line, verbose output, regeneration over a matching cache; invalid effective library / missing project path => non-zero exit and an unchanged sandbox tree. Part C (real binary, `init`): -p {default, other, missing, a path through a regular file, a path with a 300-character component} x -g given or not x -v {absent, zod, none, unsupported, Zod, NONE (the names are case-sensitive)} x -o {default tauri.conf.json in the project, new standalone file, existing standalone file without / with --force, explicit tauri.conf.json elsewhere}; an unsupported library, a missing project path or an existing standalone file without --force => non-zero exit and an unchanged sandbox tree; otherwise exit 0, only the configuration file and the output directory change, the file reads back as the settings given, every other key of a tauri.conf.json survives, and the initial generation used the same settings.");
     res.assumptions = vec!["integers outside the i64/u64 range are not part of the document alphabet (serde_json reads them as floats)".into()];
     res
 }
